@@ -17,6 +17,7 @@ func init() {
 func runC17(c *Ctx) {
 	L := c.L
 	c.checkNormaliserSums("normaliser-sum", "distance/protein")
+	c.checkLikelihoodSumComplete("likelihood-sum-complete")
 	c.checkDenseSymmetry()
 	c.checkDistRange()
 	c.checkBranchClamp()
